@@ -443,13 +443,19 @@ func attGenPlan(g gen.G, idx int, gaps bool) *attPlan {
 		maxName = core.Pick(g.Rand, []int{120, 200, 245, 255}) // length-prefixed header: up to 255 bytes
 	}
 	nf := 1 + g.Intn(4)
+	many := g.Chance(1, 12)
+	if many {
+		// a long session: 20..40 small files with short names (state kept per connection and per file gets a history)
+		nf = 20 + g.Intn(21)
+		maxName = 8
+	}
 	budget := 1023 - 30 - 40 - 32 - 2 - 4*45 // what the 0x1210 body can spend on names beyond four short ones
 	if nf > 1 {
 		p.Order = core.Pick(g.Rand, []string{"", "", "announce-first", "interleaved", "late-1212"})
 	}
 	for i := 0; i < nf; i++ {
 		cs := 1 + g.Intn(4096)
-		if g.Chance(1, 3) {
+		if g.Chance(1, 3) || many {
 			cs = 1 + g.Intn(64)
 		}
 		size := 1 + g.Intn(3*cs)
@@ -459,6 +465,9 @@ func attGenPlan(g gen.G, idx int, gaps bool) *attPlan {
 		mn := maxName
 		if budget < mn+8 { // the 0x1210 body (10-bit length field) must hold every announced name: keep the sum below 1023 bytes
 			mn = 40
+		}
+		if many {
+			mn = 8
 		}
 		nameBytes := attName(g, mn, marker && g.Bool(), i)
 		budget -= len(nameBytes) + 5
